@@ -1,6 +1,6 @@
 (* Write/Generate.v — executable model of hclwrite/generate.go (token generation
-   for constant values and traversals) and of blockLabels.Replace
-   (hclwrite/ast_block.go). Definitions only; one Gallina function per Go
+   for constant values and traversals); blockLabels.Replace, which re-scans the
+   generated tokens, is in Write/StringLit.v next to blockLabels.Current. Definitions only; one Gallina function per Go
    function, same order of checks.
 
    Strings are lists of Unicode scalar values (what Go's `for i, r := range s`
@@ -102,9 +102,11 @@ Section Gen.
     let src := escape is_print s in
     t_oquote :: (match src with [] => [] | _ => [(TokenQuotedLit, src)] end) ++ [t_cquote].
 
-  (* key of a map/object element *)
+  (* key of a map/object element: a bare identifier when ValidIdentifier says so
+     and the key is not the keyword "for" (Go compares the strings, i.e. their
+     UTF-8 bytes: `k != "for"`); otherwise the quoted string *)
   Definition gen_key (k : list Z) : list tok :=
-    if valid_ident k then [(TokenIdent, utf8 k)] else gen_string k.
+    if valid_ident k && negb (zlist_eqb (utf8 k) b_for) then [(TokenIdent, utf8 k)] else gen_string k.
 
   (* appendTokensForValue (generate.go:185-305). Unknown, marked and capsule
      values make Go panic; they are outside [val] (the property quantifies over
@@ -182,9 +184,6 @@ Section Gen.
   Definition tokens_for_function_call (name : list Z) (args : list (list tok)) : list tok :=
     tokens_for_identifier name ++ (TokenOParen, [40]) :: join_comma true args ++ [(TokenCParen, [41])].
 
-  (* blockLabels.Replace (ast_block.go:128-142): one `quoted` node per label,
-     holding TokensForValue(cty.StringVal(label)) *)
-  Definition replace_labels (ls : list (list Z)) : list (list tok) := map gen_string ls.
 End Gen.
 
 Definition tok_bytes (ts : list tok) : list Z := flat_map snd ts.
